@@ -858,6 +858,11 @@ def check():
                 app_bad.append(why or name)
             return ok
         c08.application_lemmas(o, M, E, M.one(r"^(eval::)?eval_application$"), app_structural)
+        # ... and the evaluator inlines whatever cycles_check did not mark: an edge missing from the definition graph is
+        # an unbounded recursion (lemma shared with C09)
+        import props.c09 as c09
+        Lg = mirlib.Lemma(o)
+        c09.graph_lemmas(o, Lg, Lg.smt, M, E, app_structural, lambda name, model: app_bad.append(name))
     except KeyError as exn:
         o.inconc(str(exn)[:160])
         app_bad = []
